@@ -208,6 +208,20 @@ func routeEntry(v6 bool) EntryFn {
 func init() {
 	register(eRouteV4, "nclient4 concurrent calls", routeEntry(false))
 	register(eRouteV6, "nclient6 concurrent calls", routeEntry(true))
+	held := func(v6 bool) func(a [][]byte) ([][]byte, error) {
+		return func(a [][]byte) ([][]byte, error) {
+			seen, out := heldMatcherScenario(v6, a[0], int(a[1][0]))
+			st := []byte{4}
+			if out.status == 1 {
+				st = []byte{1, out.payload}
+			} else if out.status != 4 {
+				st = []byte{out.status}
+			}
+			return [][]byte{seen, st}, nil
+		}
+	}
+	register(74, "nclient4 call with a held matcher", held(false))
+	register(75, "nclient6 call with a held matcher", held(true))
 	props["C10"] = genC10
 }
 
@@ -252,7 +266,25 @@ func genC10(r *Run) {
 		for acceptFrom := 0; acceptFrom <= n; acceptFrom++ { // n: nothing is acceptable
 			checkHeldMatcher(r, false, n, acceptFrom)
 			checkHeldMatcher(r, true, n, acceptFrom)
+			ps := make([]byte, n)
+			for i := range ps {
+				ps[i] = byte(10 + i)
+			}
+			r.Add(74, ps, []byte{byte(acceptFrom)})
+			r.Add(75, ps, []byte{byte(acceptFrom)})
 			evals += 2
+		}
+	}
+	// callers that reuse a pending id at the same moment: one is admitted, all others are refused
+	for k := 0; k < r.N(600, 20000); k++ {
+		v6 := k%2 == 1
+		n := r.Pick(8, 8, 4, 16)
+		waiting, refused, other := collidingCallers(v6, n)
+		evals++
+		if waiting != 1 || refused != n-1 || other != 0 {
+			r.Fail("c10-concurrent-id-reuse", fmt.Sprintf("v6=%v: %d calls with one transaction id started together (round %d)", v6, n, k),
+				fmt.Sprintf("%d admitted, %d refused, %d ended otherwise; want 1 admitted and %d refused", waiting, refused, other, n-1))
+			break
 		}
 	}
 	// micro-step schedules forced through the verif hooks
@@ -436,4 +468,69 @@ func checkHeldMatcher(r *Run, v6 bool, n, acceptFrom int) {
 	if acceptFrom >= n && out.status == 1 {
 		r.Fail("c10-returned-rejected", what, fmt.Sprintf("call returned payload %d although the matcher rejected everything", out.payload))
 	}
+}
+
+// collidingCallers: n calls with the same transaction id start at the same moment on one client.
+// Exactly one may be admitted (it stays waiting); every other one must be refused.
+func collidingCallers(v6 bool, n int) (waiting, refused, other int) {
+	synctest.Test(syncT, func(t *testing.T) {
+		conn := newLabConn()
+		var c4 *nclient4.Client
+		var c6 *nclient6.Client
+		if v6 {
+			c6, _ = nclient6.NewWithConn(conn, labHW, nclient6.WithTimeout(time.Hour), nclient6.WithRetry(1))
+		} else {
+			c4, _ = nclient4.NewWithConn(conn, labHW, nclient4.WithTimeout(time.Hour), nclient4.WithRetry(1))
+		}
+		start := make(chan struct{})
+		outs := make([]callOutcome, n)
+		finished := make([]bool, n)
+		var mu sync.Mutex
+		var wg sync.WaitGroup
+		for j := 0; j < n; j++ {
+			wg.Add(1)
+			go func(j int) {
+				defer wg.Done()
+				var o callOutcome
+				if v6 {
+					req := &dhcpv6.Message{MessageType: dhcpv6.MessageTypeSolicit, TransactionID: dhcpv6.TransactionID{0, 0, 5}}
+					<-start
+					resp, err := c6.SendAndRead(context.Background(), nclient6.AllDHCPRelayAgentsAndServers, req, nil)
+					o = classify6(resp, err)
+				} else {
+					req, _ := dhcpv4.NewDiscovery(labHW, dhcpv4.WithTransactionID(dhcpv4.TransactionID{0, 0, 0, 5}))
+					dest := &net.UDPAddr{IP: net.IPv4bcast, Port: 67}
+					<-start
+					resp, err := c4.SendAndRead(context.Background(), dest, req, nil)
+					o = classify4(resp, err)
+				}
+				mu.Lock()
+				outs[j], finished[j] = o, true
+				mu.Unlock()
+			}(j)
+		}
+		synctest.Wait()
+		close(start)
+		synctest.Wait()
+		mu.Lock()
+		for j := 0; j < n; j++ {
+			switch {
+			case !finished[j]:
+				waiting++
+			case outs[j].status == 2:
+				refused++
+			default:
+				other++
+			}
+		}
+		mu.Unlock()
+		if v6 {
+			c6.Close()
+		} else {
+			c4.Close()
+		}
+		wg.Wait()
+		synctest.Wait()
+	})
+	return
 }
